@@ -216,7 +216,11 @@ def gen_cases(run):
     # time_period
     for a in (['none'], ['other'], ['int', 0], ['int', -5], ['int', 7], ['bool', 1], ['bool', 0],
               ['int', 2 ** 60 + 1], ['float', '-1/2'], ['float', '5/2'], ['float', '0/1'],
-              ['str', '1m30s'], ['str', ''], ['str', 'P1DT2H'], ['str', 'abc'], ['str', '1,5s']):
+              ['str', '1m30s'], ['str', ''], ['str', 'P1DT2H'], ['str', 'abc'], ['str', '1,5s'],
+              # strings that Python's float() would take, but that are not durations
+              ['str', '-5'], ['str', '+7'], ['str', '1e3'], ['str', '1_000'], ['str', '.5'], ['str', '5.'],
+              ['str', 'inf'], ['str', 'nan'], ['str', '1e400'], ['str', '-0'], ['str', '0x10'], ['str', 'Infinity'],
+              ['str', ' 5 '], ['str', '5'], ['str', '2.5'], ['str', '1_0s']):
         cases.append(dict(kind='period', arg=a))
     for _ in range(100 * n):
         cases.append(dict(kind='period', arg=['float', fr(rng.uniform(-10, 1e6))]))
